@@ -438,6 +438,13 @@ func (o *IndividualNodesCompareOptions) calculateWinners(a, b IndividualNodes, s
 		for similarity := range similarityResults {
 			// Remove any certain matches from the pool of possible winners.
 			if similarity.certainMatch {
+				// An individual can only be matched once, even if several
+				// certain matches were found for it (shared unique identifiers
+				// or duplicated pointers).
+				if found[similarity.Left] || found[similarity.Right] {
+					continue
+				}
+
 				winners <- similarity
 				found[similarity.Left] = true
 				found[similarity.Right] = true
